@@ -27,6 +27,15 @@ template <bool Close> static vj::value run(const vj::value& c) {
     std::string t = a["t"].as_str(), form = g["form"].as_str();
     double eps = Close ? g["eps4"].as_int() / 4.0 : 0; double sc = Close ? 0.25 : 1.0;
     using E = std::conditional_t<Close, double, long>;
+    if (t == "either" || b["t"].as_str() == "either") {
+        // variants over (scalar, n-d array); a plain operand is the scalar or the array itself
+        using A = dyn_t<E>; using V = nmtools_either<E, A>;
+        auto mk = [&](const vj::value& m) -> V { const auto& v = m["val"]; if (m["tag"].as_str() == "L") return V{(E)(v["v"].as_int() * sc)}; return V{nd_of<E>(v, sc)}; };
+        auto plain = [&](const vj::value& m, auto&& f) -> vj::value { if (m["t"].as_str() == "num") return f((E)(m["v"].as_int() * sc)); return f(nd_of<E>(m, sc)); };
+        if (form == "either_either") return boolean(cmp<Close>(mk(a), mk(b), eps));
+        if (form == "either_plain") return plain(b, [&](const auto& y) { return boolean(cmp<Close>(mk(a), y, eps)); });
+        if (form == "plain_either") return plain(a, [&](const auto& x) { return boolean(cmp<Close>(x, mk(b), eps)); });
+    }
     if (t == "num") return boolean(cmp<Close>((E)(a["v"].as_int() * sc), (E)(b["v"].as_int() * sc), eps));
     if (t == "idx") {
         if constexpr (Close) return crash_res("driver:unsupported");
